@@ -27,7 +27,7 @@ func init() {
 			{ID: "C11.R9", Floor: 3, Doc: "ring construction and replica-map maintenance (=C10.R10)", Run: c10r10},
 			{ID: "C11.R10", Floor: 2, Doc: "the placement walks cover every ring position and wrap around (=C10.R4)", Run: c10r4},
 			{ID: "C11.R12", Floor: 1, Doc: "updateReplicas carries over the replica maps of the other keyspaces only: the updated keyspace never keeps its old entry", Run: c11r12},
-			{ID: "C11.R13", Floor: 2, Doc: "a generator that walks a list of lists with persistent cursors compares the position with the list's length after every advance, before the next iteration or a return (the tier walk never strands on the end of a list)", Run: c11NestedCursor},
+			{ID: "C11.R13", Floor: 1, Doc: "a generator that walks a list of lists with persistent cursors compares the position with the list's length after every advance, before the next iteration or a return (the tier walk never strands on the end of a list)", Run: c11NestedCursor},
 			{ID: "C11.R11", Floor: 1, Doc: "no node twice in a replica list: hosts stored during the placement walk are entered into the seen set (=C10.R11)", Run: c10r11},
 		},
 	})
